@@ -282,6 +282,7 @@ class Interp:
         self.order.append('root')
         self.trace['root'] = fr.obs
         self.builders['root'] = B
+        ok = False
         try:
             self.run_body(fr, body)
             self.crash_point()
@@ -289,8 +290,16 @@ class Interp:
                 e = CrashError('crash after the last statement of the root')
                 self.crashed = e
                 raise e
+            ok = True
         finally:
             self.done_order.append('root')
+            if self.mode == 'real':
+                # phase of the build, independent of the library's private
+                # method names: after the root function only the cache write
+                # is still "before the commit"
+                from . import seams
+                if seams.SIM.phase == 'build':
+                    seams.SIM.phase = 'cachewrite' if ok else 'rollback'
             # the fence of the root builder: the root function has returned
             # or raised (the library closes it before any further yield point)
             self.ret_seq['root'] = self.seq()
